@@ -235,7 +235,7 @@ func main() {
 				st.Case(line[len(id):], fixed > 0 && varint > 0, line)
 			case "BIG":
 				runBig(id, f[1:], line, obs, st)
-			case "PAY", "PAYDEC":
+			case "PAY", "PAYDEC", "PAYR":
 				runPayload(id, f[1:], line, obs, st)
 			case "PB", "PBDEC", "UPD", "UPDDEC":
 				runProto(id, f[1:], line, obs, st)
